@@ -768,3 +768,52 @@ func (w *World) TraceEvents() (string, TraceStats, []int) {
 	}
 	return cq.List(out), st, introOrder
 }
+
+// HandleEvents converts the log into the events of Index/Handles.v (simulated directory only).
+// Readers are placed right after the root they captured.
+func (w *World) HandleEvents(complete bool) string {
+	evs := w.Rec.Snapshot()
+	var out []string
+	readersAt := map[uint64][]int{}
+	for _, e := range evs {
+		if e.Kind == "reader-open" {
+			readersAt[e.ID] = append(readersAt[e.ID], e.Batch)
+		}
+	}
+	flush := func(epoch uint64) {
+		for _, r := range readersAt[epoch] {
+			out = append(out, fmt.Sprintf("HReaderOpen %d %d", r, epoch))
+		}
+		delete(readersAt, epoch)
+	}
+	flush(0)
+	for _, e := range evs {
+		switch e.Kind {
+		case "root":
+			if e.V.Creator == "nil" {
+				out = append(out, "HRootNil")
+				continue
+			}
+			var ids []string
+			for _, sg := range e.V.Segs {
+				if sg.Persisted {
+					ids = append(ids, strconv.FormatUint(sg.ID, 10))
+				}
+			}
+			out = append(out, fmt.Sprintf("HRoot %d %s", e.V.Epoch, cq.List(ids)))
+			flush(e.V.Epoch)
+		case "load-ok":
+			out = append(out, fmt.Sprintf("HOpen %s %d %s", cq.B(e.Item == ".snp"), e.ID, e.Note))
+		case "close-handle":
+			out = append(out, fmt.Sprintf("HClose %d", e.ID))
+		case "double-close":
+			out = append(out, fmt.Sprintf("HClose %d", e.ID))
+		case "reader-close":
+			out = append(out, fmt.Sprintf("HReaderClose %d", e.Batch))
+		}
+	}
+	if complete {
+		out = append(out, "HEnd")
+	}
+	return cq.List(out)
+}
